@@ -21,8 +21,9 @@ MCValues2 == {"*", ""}
 ValueFor(f, v) == IF v # "*" THEN v
                   ELSE IF f \in {"cell_format", "header_cell_format"} THEN "[{}]"
                   ELSE IF f \in {"cell_style", "header_cell_style", "style"} THEN "bold" ELSE "#"
-\* alignment customisations: right-align column 0 / centre column 1 through the setter, assign a list, change the default
-MCAligns == {<<"set_column_alignment", 0, 1, <<>>>>, <<"set_column_alignment", 1, 2, <<>>>>,
+\* alignment customisations on the 3-column table: the setter on every column (so that ascending, descending and
+\* repeated calls all occur among the sequences), assigning a list, changing the default
+MCAligns == {<<"set_column_alignment", 0, 1, <<>>>>, <<"set_column_alignment", 1, 2, <<>>>>, <<"set_column_alignment", 2, 1, <<>>>>,
              <<"column_alignments", 0, 0, <<2, 1>>>>, <<"default_column_alignment", 0, 1, <<>>>>}
 
 HInit == Init /\ hist = <<>>
